@@ -29,6 +29,13 @@ ETC1A4   == 13
 PlainFormats == {RGBA8, RGBA5551, RGB565, RGBA4, LA8, L8, A8}
 EtcFormats   == {ETC1, ETC1A4}
 Formats3DS   == PlainFormats \cup EtcFormats
+\* 4-bit formats the containers can also carry.  The pixel statement (C19) does not name them: their
+\* decoding is not specified here (any w*h RGBA quadruples are accepted); their payload size is the
+\* de-facto one of the readers' format table (L4: 4 bits per texel, A4: one byte per texel).
+L4 == 10
+A4 == 11
+OpaqueFormats == {L4, A4}
+ContainerFormats == Formats3DS \cup OpaqueFormats
 
 BytesPerPixel(fmt) ==
   CASE fmt = RGBA8 -> 4
@@ -39,7 +46,9 @@ BytesPerPixel(fmt) ==
 TexSides == {8, 16, 32, 64, 128, 256, 512, 1024}
 
 PayloadSize(fmt, w, h) ==
-  IF fmt \in EtcFormats THEN EtcPayloadSize(w, h, fmt = ETC1A4)
+  IF fmt = L4 THEN (w * h) \div 2
+  ELSE IF fmt = A4 THEN w * h
+  ELSE IF fmt \in EtcFormats THEN EtcPayloadSize(w, h, fmt = ETC1A4)
   ELSE w * h * BytesPerPixel(fmt)
 
 \* ------------------------------------------------------------------ tile order
@@ -202,5 +211,6 @@ CI8 == 100
 Rgb5a3Run == 101
 DecodeOK(t, px) ==
   IF t.fmt = CI8 THEN CI8ImageOK(t.w, t.h, t.payload, t.pal, px)
+  ELSE IF t.fmt \in OpaqueFormats THEN Len(px) = 4 * t.w * t.h /\ \A q \in 1..Len(px) : px[q] \in 0..255
   ELSE ImageOK(t.fmt, t.w, t.h, t.payload, px)
 =============================================================================
